@@ -129,3 +129,31 @@ func loadBytes(b []byte) (*openapi3.T, error) {
 	l.IsExternalRefsAllowed = false
 	return l.LoadFromData(b)
 }
+
+// structFields lists the field names of the named struct type.
+func structFields(f *ast.File, name string) ([]string, bool) {
+	for _, d := range f.Decls {
+		gd, ok := d.(*ast.GenDecl)
+		if !ok {
+			continue
+		}
+		for _, s := range gd.Specs {
+			ts, ok := s.(*ast.TypeSpec)
+			if !ok || ts.Name.Name != name {
+				continue
+			}
+			st, ok := ts.Type.(*ast.StructType)
+			if !ok {
+				return nil, false
+			}
+			var out []string
+			for _, fl := range st.Fields.List {
+				for _, n := range fl.Names {
+					out = append(out, n.Name)
+				}
+			}
+			return out, true
+		}
+	}
+	return nil, false
+}
